@@ -227,9 +227,8 @@ state such a history leaves is one the theorems apply to.
 for that one value the administrative calls are NOT the identity in modelx: `start_stacktrace` /
 `stop_stacktrace` rebuild the call stack with `maxdepth=self.callstack.maxdepth`, and
 `CallStack.__init__` tests `if maxdepth:` – zero is falsy, the limit silently becomes the default
-(100000).  `admin_changes_nothing` is therefore a statement about limits ≥ 1 (all the harness
-configures); witness `notes/EXECP-repro_limit0_trace_session.py`, one-line candidate repair
-`notes/EXECP-candidate_limit0.diff` (`if maxdepth is not None:`). -/
+(100000).  That was the code before 51dce2e (repaired: `if maxdepth is not None:`; witness
+`notes/EXECP-repro_limit0_trace_session.py`); the harness configures limits ≥ 1 only. -/
 
 def withMaxdepth (env : Env) (k : Nat) : Env := { env with maxdepth := k }
 
